@@ -212,6 +212,48 @@ def run (z : Zstd) (fd : FloatDec) (f : List String) : String :=
       let enc := encodeBytesBlock z its
       hexOrDash enc ++ " " ++ rt (decodeBytesBlock z enc its.length) its showItems
     | none => "bad-op"
+  | "tv" :: eng :: typ :: a =>
+    let own := eng != "t"
+    let tv : Option TagVal :=
+      match typ, a with
+      | "str", [h] => (bytesOfHex h).map .str
+      | "bin", [h] => (bytesOfHex h).map .bin
+      | "int", [i] => i.toInt?.map fun i => .int (BitVec.ofInt 64 i)
+      | "sarr", hs => (hs.mapM bytesOfHex).map .strArr
+      | "iarr", is => (parseI64s is).map .intArr
+      | "ts", [s, n] => match s.toInt?, n.toInt? with
+        | some s, some n => some (.ts s n)
+        | _, _ => none
+      | "null", [_] => some .null
+      | _, _ => none
+    let vt : Option TVType :=
+      match (if typ == "null" then a.headD "" else typ) with
+      | "str" => some .str | "bin" => some .bin | "int" => some .int | "sarr" => some .strArr
+      | "iarr" => some .intArr | "ts" => some .ts | _ => none
+    match tv, vt with
+    | some tv, some vt =>
+      let raw := engineMarshal tv
+      showItem raw ++ " " ++
+        (match engineDecode own vt raw with
+         | .ok .null => "N"
+         | .ok (.str s) => "S" ++ hexOrDash s
+         | .ok (.bin s) => "B" ++ hexOrDash s
+         | .ok (.int v) => "I" ++ toString v.toInt
+         | .ok (.strArr l) => " ".intercalate ("SA" :: l.map hexOrDash)
+         | .ok (.intArr l) => " ".intercalate ("IA" :: l.map fun v => toString v.toInt)
+         | .ok (.ts s n) => s!"T{s}:{n}"
+         | .err => "ERR"
+         | .panic => "PANIC")
+    | _, _ => "bad-op"
+  | "bbt" :: t :: a =>
+    match bytesOfHex t, parseItems a with
+    | some tailIn, some its =>
+      let enc := encodeBytesBlock z its
+      hexOrDash enc ++ " " ++
+        (match decodeBytesBlockWithTail z (enc ++ tailIn) its.length with
+         | .ok (xs, tail) => if xs = its ∧ tail = tailIn then "=" else s!"NE {showItems xs} tail={hexOrDash tail}"
+         | _ => "ERR")
+    | _, _ => "bad-op"
   | "rle" :: a =>
     match parseNats a with
     | some us => showNats (encodeRLE us)
@@ -325,7 +367,7 @@ def handle (line : String) : String :=
   let tk := (toks.drop 1).foldl parseTok {}
   let fd := mkF tk
   let r1 := run (mkZ tk none) fd f
-  let usesZ := ["u64b", "cblk", "bb", "dict", "tag", "dec-u64b", "dec-cblk", "dec-bb", "dec-bbt", "dec-dict",
+  let usesZ := ["u64b", "cblk", "bb", "bbt", "dict", "tag", "dec-u64b", "dec-cblk", "dec-bb", "dec-bbt", "dec-dict",
     "dec-dictv", "dec-tag"].contains (f.headD "")
   if usesZ then
     let r2 := run (mkZ tk (some [])) fd f
